@@ -3,6 +3,7 @@ from ..gen import cells as G
 from ..gen import scripts as S
 from ..translate import arith
 from .C06 import bline, sline, LEAF_DAG
+from . import c07_depth
 
 SPEC = dict(
     manifest=dict(
@@ -311,6 +312,7 @@ def run(ctx):
         if c2 is None:
             break
         c = c2
+    c07_depth.depth_at_levels(ctx)      # the limit holds at every level (pruned branches record depths per level)
 
 
 def replay(ctx, payload):
@@ -324,3 +326,5 @@ def replay(ctx, payload):
                 S._BIT_FORM[0] = form
                 S._BITS_FORM[0] = form
                 history(ctx, dag, cells, fb, fr, t, ops=list(inp['ops']))
+    elif 'recorded_depth' in inp:
+        c07_depth.depth_at_levels(ctx)           # the per-level depth family (deterministic for the seed)
